@@ -268,6 +268,9 @@ type FuncResult struct {
 	Canary    *Oblig
 	HeapCount int
 	BodyLines int
+	UsedFns    []*ssa.Function
+	Closure    bool
+	UsedIfaces []string
 }
 
 func (fe *FuncEnc) nilableParam(name string) bool {
@@ -285,7 +288,7 @@ func (eng *Engine) encodeFunction(fn *ssa.Function, fc *FuncContract, extra []*C
 	for pass := 1; pass <= 4; pass++ {
 		fe = &FuncEnc{eng: eng, fn: fn, fc: fc, pre: &Prelude{declSet: map[string]bool{}}, sorts: newSorts(),
 			heapSorts: map[string]Sort{}, heapStable: map[string]bool{}, protected: map[string]types.Type{}, opCount: map[string]int{},
-			assumedCallees: map[string]bool{}, inlinedCallees: map[string]bool{}, usedContracts: map[string]bool{}, pass: pass, seqLen: map[string]string{}, linked: map[string]bool{}, storeReach: map[string][]string{}, cvSeen: map[string]bool{}}
+			assumedCallees: map[string]bool{}, inlinedCallees: map[string]bool{}, usedContracts: map[string]bool{}, usedFns: map[*ssa.Function]bool{}, usedIfaces: map[string]bool{}, pass: pass, seqLen: map[string]string{}, linked: map[string]bool{}, storeReach: map[string][]string{}, cvSeen: map[string]bool{}}
 		for k, v := range universe {
 			fe.heapSorts[k] = v
 		}
@@ -306,6 +309,11 @@ func (eng *Engine) encodeFunction(fn *ssa.Function, fc *FuncContract, extra []*C
 	res := &FuncResult{Fn: eng.displayName(fn), Contract: fc, Obls: fe.obls, Notes: fe.notes, HeapCount: len(fe.heapSorts), BodyLines: len(fe.pre.body)}
 	res.Assumed = sortedKeys(fe.assumedCallees)
 	res.Inlined = sortedKeys(fe.inlinedCallees)
+	for f := range fe.usedFns {
+		res.UsedFns = append(res.UsedFns, f)
+	}
+	sort.Slice(res.UsedFns, func(i, j int) bool { return fullName(res.UsedFns[i]) < fullName(res.UsedFns[j]) })
+	res.UsedIfaces = sortedKeys(fe.usedIfaces)
 	// header: sorts
 	fe.pre.decls = append(fe.sorts.Decls(), fe.pre.decls...)
 	res.Canary = &Oblig{ID: "canary:" + res.Fn, Kind: "canary", Fn: res.Fn, Label: "prelude-consistent", Reach: "true", Formula: "false", prel: fe.pre}
@@ -543,7 +551,7 @@ func (eng *Engine) ifaceClausesFor(fn *ssa.Function) []*Clause {
 func (eng *Engine) encodeLemma(c *Clause, uses []string) *Oblig {
 	fe := &FuncEnc{eng: eng, pre: &Prelude{declSet: map[string]bool{}}, sorts: newSorts(),
 		heapSorts: map[string]Sort{}, heapStable: map[string]bool{}, protected: map[string]types.Type{}, opCount: map[string]int{},
-		assumedCallees: map[string]bool{}, inlinedCallees: map[string]bool{}, usedContracts: map[string]bool{}, seqLen: map[string]string{}, linked: map[string]bool{}, storeReach: map[string][]string{}, cvSeen: map[string]bool{}}
+		assumedCallees: map[string]bool{}, inlinedCallees: map[string]bool{}, usedContracts: map[string]bool{}, usedFns: map[*ssa.Function]bool{}, usedIfaces: map[string]bool{}, seqLen: map[string]string{}, linked: map[string]bool{}, storeReach: map[string][]string{}, cvSeen: map[string]bool{}}
 	fe.top = &Frame{fe: fe, vals: map[ssa.Value]Term{}, tuples: map[ssa.Value][]Term{}}
 	st := &State{heap: map[string]string{}, alive: "true"}
 	env := &Env{fe: fe, st: st, old: st, vars: map[string]Term{}, calleeMode: true}
